@@ -85,8 +85,28 @@ Definition view_ok (w : view_case) : bool :=
   optz_eqb (view_step unit (fun _ _ => w_balance w) (fun _ _ _ => w_deleg_tokens w) (fun _ _ => w_bonded_total w)
                       (fun _ _ _ => w_reward w) (fun _ _ => w_rewards_total w) tt (w_view w)) (w_obs w).
 
-Inductive sk_case := KOp (k : op_case) | KView (w : view_case).
+(* several calls in one transaction (the contract does not revert when a call fails): per call, model and observation
+   must agree on success and the scripted messages must have been consumed; the receipt's logs are the concatenation of
+   the successful calls' logs in order *)
+Definition sub_logs (k : op_case) : option (list log) :=
+  match model_step k with
+  | Some (s', logs, _, _) =>
+      if obs_ok k && (match o_script s' with [] => true | _ => false end) then Some logs else None
+  | None => if obs_ok k then None else Some []
+  end.
 
-Definition sk_ok (c : sk_case) : bool := match c with KOp k => op_ok k | KView w => view_ok w end.
+Fixpoint multi_logs (l : list op_case) : option (list log) :=
+  match l with
+  | [] => Some []
+  | k :: r => match sub_logs k, multi_logs r with Some a, Some b => Some (a ++ b) | _, _ => None end
+  end.
+
+Definition multi_ok (subs : list op_case) (logs : list log) : bool :=
+  match multi_logs subs with Some l => logs_eqb l logs | None => false end.
+
+Inductive sk_case := KOp (k : op_case) | KView (w : view_case) | KMulti (subs : list op_case) (logs : list log).
+
+Definition sk_ok (c : sk_case) : bool :=
+  match c with KOp k => op_ok k | KView w => view_ok w | KMulti subs logs => multi_ok subs logs end.
 
 Definition sk_mismatches (off : nat) (l : list sk_case) : list nat := mism sk_ok off l.
